@@ -1,6 +1,118 @@
-//! Replays a violation artefact without the explorer.
+//! Replays a violation artefact without the explorer: the recorded action list is executed
+//! sequentially from the empty database through the same transition function and oracles,
+//! twice (determinism protocol: both logs must be identical), and additionally "plainly":
+//! one continuous sequence of API calls with a real commit after every build.
+
+use serde_json::Value;
+
+use crate::common::{arroy_db, Scratch};
+use crate::exec::{exec, Action, Outcome};
+use crate::explore::{in_single_thread_pool, Seen, System, Worker};
+use crate::hist::{HistCfg, HistSystem};
 
 pub fn run(path: &str) -> i32 {
-    println!("MACHINERY-ERROR replay of {path}: not implemented yet");
-    2
+    let text = match std::fs::read_to_string(path) {
+        Ok(t) => t,
+        Err(e) => {
+            println!("MACHINERY-ERROR cannot read {path}: {e}");
+            return 2;
+        }
+    };
+    let v: Value = match serde_json::from_str(&text) {
+        Ok(v) => v,
+        Err(e) => {
+            println!("MACHINERY-ERROR {path} is not JSON: {e}");
+            return 2;
+        }
+    };
+    let property = v["property"].as_str().unwrap_or("?").to_string();
+    println!("replaying {path}: property={property} signature={}", v["signature"]);
+    println!("recorded: {}", v["what"].as_str().unwrap_or(""));
+    let engine = v["engine"].as_str().unwrap_or("");
+    let logs: Vec<Vec<String>> = (0..2)
+        .map(|_| match engine {
+            "hist" => in_single_thread_pool(|| replay_hist(&v)),
+            other => crate::props::replay_other(other, &v),
+        })
+        .collect();
+    for l in &logs[0] {
+        println!("  {l}");
+    }
+    if logs[0] != logs[1] {
+        println!("MACHINERY-ERROR the two replays of {path} diverge (uncontrolled nondeterminism); no verdict");
+        for l in &logs[1] {
+            println!("  second: {l}");
+        }
+        return 2;
+    }
+    if logs[0].iter().any(|l| l.starts_with("VIOLATION-REPRODUCED")) {
+        println!("VIOLATION property={property} replay={path}");
+        1
+    } else {
+        println!("replay of {path}: no violation on the current tree");
+        0
+    }
+}
+
+fn replay_hist(v: &Value) -> Vec<String> {
+    let mut log = Vec::new();
+    let cfg = match HistCfg::from_json(&v["config"]) {
+        Some(c) => c,
+        None => return vec!["MACHINERY-ERROR cannot parse the hist config".into()],
+    };
+    let actions: Vec<Action> = v["actions"]
+        .as_array()
+        .map(|a| a.iter().filter_map(Action::from_json).collect())
+        .unwrap_or_default();
+    let sys = HistSystem { cfg: cfg.clone() };
+    let seen = Seen::new();
+    let mut w = Worker::new("replay");
+    let mut state = sys.initial().remove(0);
+    for (i, a) in actions.iter().enumerate() {
+        let step = sys.step(&mut w, &state, a, &seen);
+        log.push(format!("step {i}: {}", a.to_json()));
+        for viol in &step.violations {
+            log.push(format!("VIOLATION-REPRODUCED signature={} :: {}", viol.signature, viol.what));
+        }
+        match step.next {
+            Some(s) => state = s,
+            None => {
+                if step.violations.is_empty() {
+                    log.push("(state already visited in this replay — identical to an earlier one)".into());
+                }
+                break;
+            }
+        }
+    }
+    // plain run: continuous API calls, real commits
+    let scratch = Scratch::new("plain");
+    let mut types = crate::exec::IndexTypes::new();
+    types.insert(cfg.index, (cfg.metric, cfg.dim));
+    let mut wtxn = scratch.env.write_txn().unwrap();
+    for (i, a) in actions.iter().enumerate() {
+        let (o, _) = exec(scratch.db, &mut wtxn, &mut types, a);
+        log.push(format!("plain {i}: {}", o.describe()));
+        if !o.is_ok() {
+            break;
+        }
+        if a.is_build() {
+            wtxn.commit().unwrap();
+            let rtxn = scratch.env.read_txn().unwrap();
+            let ok = crate::with_metric!(cfg.metric, D => {
+                match crate::common::catch(|| {
+                    arroy::Reader::<D>::open(&rtxn, cfg.index, arroy_db::<D>(scratch.db))
+                        .and_then(|r| r.assert_validity(&rtxn))
+                }) {
+                    Ok(Ok(())) => "upstream assert_validity: ok".to_string(),
+                    Ok(Err(e)) => format!("upstream assert_validity: error {e}"),
+                    Err(p) => format!("upstream assert_validity: panic {}", p.message),
+                }
+            });
+            log.push(format!("plain {i}: committed; {ok}"));
+            drop(rtxn);
+            wtxn = scratch.env.write_txn().unwrap();
+        }
+    }
+    let _ = Outcome::Unit;
+    log
 }
